@@ -193,6 +193,15 @@ def numTy? (name : String) : Option NumTy :=
   | "isize" => some (fixIntTy "isize" 64 true)
   | "u32" => some (fixIntTy "u32" 32 false)
   | "u64" => some (fixIntTy "u64" 64 false)
+  | "i8" => some (fixIntTy "i8" 8 true)
+  | "i16" => some (fixIntTy "i16" 16 true)
+  | "i128" => some (fixIntTy "i128" 128 true)
+  | "u8" => some (fixIntTy "u8" 8 false)
+  | "u16" => some (fixIntTy "u16" 16 false)
+  | "u128" => some (fixIntTy "u128" 128 false)
+  | "usize" => some (fixIntTy "usize" 64 false)
+  | "rational32" => some (fixRatTy "rational32" 32)
+  | "rational" => some (fixRatTy "rational" 64)
   | _ => none
 
 def fmtOf? (s : String) : Option Fmt :=
